@@ -731,6 +731,17 @@ func EvalFunction(env *Zlisp, name string, args []Sexp) (Sexp, error) {
 	orig := &SexpArray{Val: args}
 	sfun := env.MakeFunction("evalGeneratedFunction", 0, false, newfunc, orig)
 
+	// The expressions are evaluated on behalf of the script function that
+	// called the builtin or builder (eval, the ':' accessor, ...): free
+	// variables resolve through that function's closure.
+	if env.curfunc != nil && env.curfunc.user {
+		if elem, err := env.addrstack.Get(0); err == nil {
+			if addr, ok := elem.(Address); ok && addr.function != nil && !addr.function.user {
+				sfun.parent = addr.function
+			}
+		}
+	}
+
 	err = env.CallFunction(sfun, 0)
 	if err != nil {
 		return SexpNull, err
